@@ -22,6 +22,10 @@
    payloads over the decompression cap, makes at most the configured number of
    attempts (capped at three); errors never contain the URL's query string or user
    info".  All of it is proved of the model of the CURRENT code (after fix 75e15f4).
+   [prev] is ANY CheckRedirect the caller's own HTTPClient may carry (or none): a
+   function from the redirect budget left to allow / ordinary error /
+   ErrUseLastResponse, consulted after the hop limit and the validator — so the hop
+   bound and the validator clauses hold WHATEVER policy the caller's client has.
    The trace theorems hold for ANY treatment [rb] of a 200 body; the cap theorems
    are about the code's [read_body].  Three [_legacy_refuted] theorems exhibit the
    code before the fix violating the cap clauses (gzip inflated by the transport)
@@ -45,30 +49,30 @@ Proof. exact clamps_match_code. Qed.
 
 (* Never a request to a URL the validator rejects — the location URL, every redirect
    target, on every attempt. *)
-Theorem never_requests_rejected_url : forall U validator origin maxR rb n u0 first w,
-  In (EvSend first w) (fst (fst (resolve U validator origin maxR rb n u0))) ->
+Theorem never_requests_rejected_url : forall U validator origin maxR rb prev n u0 first w,
+  In (EvSend first w) (fst (fst (resolve U validator origin maxR rb prev n u0))) ->
   accepts U validator w = true.
 Proof. exact never_rejected_l. Qed.
 
 (* Stronger, with the order: when a validator is configured, every request in the
    trace goes to a URL the validator was asked about EARLIER in the trace and
    accepted ([ordered] starts from the empty set of validated URLs). *)
-Theorem validated_before_requested : forall U (v : U -> bool) origin maxR rb n u0,
-  ordered U (Some v) (fun _ => False) (fst (fst (resolve U (Some v) origin maxR rb n u0))).
+Theorem validated_before_requested : forall U (v : U -> bool) origin maxR rb prev n u0,
+  ordered U (Some v) (fun _ => False) (fst (fst (resolve U (Some v) origin maxR rb prev n u0))).
 Proof. exact validated_before_l. Qed.
 
 (* A rejected location URL: nothing is sent at all. *)
-Theorem rejected_location_sends_nothing : forall U validator origin maxR rb n u0,
+Theorem rejected_location_sends_nothing : forall U validator origin maxR rb prev n u0,
   accepts U validator u0 = false ->
-  sends U (fst (fst (resolve U validator origin maxR rb n u0))) = 0
-  /\ snd (fst (resolve U validator origin maxR rb n u0)) = RErr EInitRejected.
+  sends U (fst (fst (resolve U validator origin maxR rb prev n u0))) = 0
+  /\ snd (fst (resolve U validator origin maxR rb prev n u0)) = RErr EInitRejected.
 Proof. exact rejected_location_l. Qed.
 
 (* hops <= max: one attempt sends at most maxR + 1 requests (follows at most maxR
    redirects), whatever the chain; a whole fetch at most attempts * (maxR + 1). *)
-Theorem hops_at_most_max_redirects : forall U validator origin maxR rb,
-  (forall att first u, sends U (fst (follow U validator origin rb att maxR first u)) <= S maxR)
-  /\ (forall n u0, let run := resolve U validator origin maxR rb n u0 in
+Theorem hops_at_most_max_redirects : forall U validator origin maxR rb prev,
+  (forall att first u, sends U (fst (follow U validator origin rb prev att maxR first u)) <= S maxR)
+  /\ (forall n u0, let run := resolve U validator origin maxR rb prev n u0 in
                    sends U (fst (fst run)) <= snd run * S maxR).
 Proof. exact hops_l. Qed.
 
@@ -77,8 +81,8 @@ Proof. exact hops_l. Qed.
    as far as the transport are the first-flagged requests of the trace), that is
    never more than three, it is min(c + 1, 3) for a configured c >= 1, and for an
    unset c <= 0 it is the documented default + 1. *)
-Theorem attempts_at_most_configured_capped_at_three : forall U validator origin maxR rb c u0,
-  let run := resolve U validator origin maxR rb (eff_attempts c) u0 in
+Theorem attempts_at_most_configured_capped_at_three : forall U validator origin maxR rb prev c u0,
+  let run := resolve U validator origin maxR rb prev (eff_attempts c) u0 in
   snd run <= eff_attempts c
   /\ firsts U (fst (fst run)) <= snd run
   /\ eff_attempts c <= 3
@@ -107,10 +111,10 @@ Proof. exact result_is_decoded_l. Qed.
 
 (* The two together on a whole fetch: a resolved fetch was served, on some attempt,
    by a URL that was requested, with a complete body inside both caps. *)
-Theorem success_is_within_caps : forall U validator origin maxR maxF maxD n u0 m,
-  snd (fst (resolve U validator origin maxR (read_body maxF maxD) n u0)) = ROk m ->
+Theorem success_is_within_caps : forall U validator origin maxR maxF maxD prev n u0 m,
+  snd (fst (resolve U validator origin maxR (read_body maxF maxD) prev n u0)) = ROk m ->
   exists att first w b,
-    In (EvSend first w) (fst (fst (resolve U validator origin maxR (read_body maxF maxD) n u0)))
+    In (EvSend first w) (fst (fst (resolve U validator origin maxR (read_body maxF maxD) prev n u0)))
     /\ origin att w = ABody b /\ read_body maxF maxD b = ROk m
     /\ (b_wire b <= maxF)%N /\ b_trunc b = None
     /\ (b_enc b <> EncId -> b_dec b = Some m /\ (m <= maxD)%N)
@@ -170,7 +174,7 @@ Example premises_satisfiable :
                           p_path := path; p_omit := false; p_user := str "alice1"; p_pass := str "hunter22";
                           p_query := str "tok=secret"; p_frag := [] |} in
   let body := {| b_declared := None; b_wire := 60%N; b_trunc := None; b_enc := EncZstd; b_dec := Some 2000%N; b_win := 2000%N |} in
-  let i := IFetch {| f_vkind := VHttps; f_retries := 1; f_redirects := 1; f_maxfetch := 60; f_maxdecomp := 2000;
+  let i := IFetch {| f_vkind := VHttps; f_policy := CPUseLastFrom 3; f_retries := 1; f_redirects := 1; f_maxfetch := 60; f_maxdecomp := 2000;
                      f_site := [ {| s_parts := p (str "/a"); s_verdict := VAccept; s_answers := [ARedirect (TUrl 1)] |};
                                  {| s_parts := p (str "/b"); s_verdict := VAccept; s_answers := [AFail; ABody body] |} ];
                      f_secrets2 := [str "bob222"; str "tok=other"] |} in
